@@ -173,6 +173,37 @@ def handle : List Sx → Sx
         (fun i => (qToMatrix3 sqrt2 pn[ravel a.shape i]! (q4 a i) (a.mask i) zeroMat).1)
         fun i => (qToMatrix3 sqrt2 pn[ravel a.shape i]! (q4 a i) (a.mask i) zeroMat).2)
     | _, _, _ => err "operand"
+  | [.atom mode, .atom "pole", ra, dec] =>
+    match parseOpd ra, parseOpd dec with
+    | some ra, some dec =>
+      match bcast ra.shape dec.shape with
+      | some out =>
+        outOpd mode (ofMat out 3 3 (fun i => poleRot (scOf ra i) (scOf dec i))
+          fun i => ra.mask (bidx ra.shape i) || dec.mask (bidx dec.shape i))
+      | none => .atom "ValueError"
+    | _, _ => err "operand"
+  | [.atom mode, .atom "qrot", half, v, norms] =>
+    -- half: (sin, cos) of half the angle; norms: vector.norm() per element of v
+    match parseOpd half, parseOpd v, Sx.rats? norms with
+    | some half, some v, some ns =>
+      let ns := ns.toArray
+      match bcast half.shape v.shape with
+      | some out =>
+        let f := fun (i : Index) =>
+          let iv := bidx v.shape i
+          fromRotation (scOf half i) (half.mask (bidx half.shape i)) (vecE v iv) ns[ravel v.shape iv]!
+        outOpd mode (ofQ4 out (fun i => (f i).1) fun i => (f i).2)
+      | none => .atom "ValueError"
+    | _, _, _ => err "operand"
+  | [.atom mode, .atom "twovec", v1, ax1, v2, ax2] =>
+    match parseOpd v1, ax1.toNat?, parseOpd v2, ax2.toNat? with
+    | some v1, some ax1, some v2, some ax2 =>
+      match bcast v1.shape v2.shape with
+      | some out =>
+        let f := fun (i : Index) => twovec ratSqrt (vecE v1 (bidx v1.shape i)) (vecE v2 (bidx v2.shape i)) ax1 ax2 zeroMat
+        outOpd mode (ofMat out 3 3 (fun i => (f i).1) fun i => (f i).2)
+      | none => .atom "ValueError"
+    | _, _, _, _ => err "operand"
   | [.atom mode, .atom "toeuler", .atom axes, a] =>
     -- answer: numer [3, 2] = (sin, cos) of the three returned angles
     match lookupAxes axes, parseOpd a with
